@@ -22,7 +22,14 @@ enum Item {
     U(usize),
     /// resource number n is created here (in the current scope, under the ambient boundary)
     R(usize),
+    /// a signal created in the current scope (state of an earlier sibling, see `W`); invisible to the model
+    G,
+    /// a watcher in the current scope: an effect subscribed to the ambient boundary's loading state that reads, whenever
+    /// the boundary is not loading, the most recent `G` signal; invisible to the model
+    W,
 }
+
+thread_local! { static LAST_G: RefCell<Option<Signal<u32>>> = const { RefCell::new(None) }; }
 
 fn parse_items(s: &str) -> Option<Vec<Item>> {
     let toks: Vec<String> = s.replace('(', " ( ").replace(')', " ) ").split_whitespace().map(|x| x.to_string()).collect();
@@ -35,6 +42,8 @@ fn parse_items(s: &str) -> Option<Vec<Item>> {
             "t" => { let n = t.get(*i)?.parse().ok()?; *i += 1; Item::T(n) }
             "u" => { let n = t.get(*i)?.parse().ok()?; *i += 1; Item::U(n) }
             "R" => { let n = t.get(*i)?.parse().ok()?; *i += 1; Item::R(n) }
+            "G" => Item::G,
+            "W" => Item::W,
             "s" | "b" | "L" => {
                 let mut v = vec![];
                 while t.get(*i)? != ")" { v.push(go(t, i)?); }
@@ -56,6 +65,8 @@ fn show_items(v: &[Item]) -> String {
         Item::T(n) => format!("(t {n})"),
         Item::U(n) => format!("(u {n})"),
         Item::R(n) => format!("(R {n})"),
+        Item::G => "(G)".into(),
+        Item::W => "(W)".into(),
     }).collect::<Vec<_>>().join(" ")
 }
 
@@ -129,6 +140,14 @@ fn build(w: &Rc<RefCell<World>>, items: &[Item], cur: usize, ctx: Option<usize>)
                 let owner = ww.res_owner.get(n).copied().unwrap_or(0);
                 ww.task_tx.push(vec![]); ww.task_scope.push(owner); ww.task_boundary.push(ctx); ww.task_left.push(1); ww.task_cancelled.push(false); ww.task_res.push(Some(*n));
             }
+            Item::G => { let g = create_signal(0u32); LAST_G.with(|l| *l.borrow_mut() = Some(g)); }
+            Item::W => {
+                let g = LAST_G.with(|l| *l.borrow());
+                if let Some(sc) = try_use_context::<SuspenseScope>() {
+                    let loading = sc.is_loading();
+                    create_effect(move || { if !loading.get() { if let Some(g) = g { let _ = g.get_untracked(); } } });
+                }
+            }
             Item::R(n) => {
                 let (tx, rx) = oneshot::channel::<()>();
                 let mut rx = Some(rx);
@@ -144,7 +163,7 @@ fn build(w: &Rc<RefCell<World>>, items: &[Item], cur: usize, ctx: Option<usize>)
 }
 
 fn max_res(items: &[Item]) -> usize {
-    items.iter().map(|i| match i { Item::S(c) | Item::B(c) => max_res(c), Item::U(n) | Item::R(n) => n + 1, Item::T(_) => 0 }).max().unwrap_or(0)
+    items.iter().map(|i| match i { Item::S(c) | Item::B(c) => max_res(c), Item::U(n) | Item::R(n) => n + 1, Item::T(_) | Item::G | Item::W => 0 }).max().unwrap_or(0)
 }
 fn declared(items: &[Item], out: &mut Vec<usize>) {
     for i in items { match i { Item::S(c) | Item::B(c) => declared(c, out), Item::R(n) => out.push(*n), _ => {} } }
@@ -580,7 +599,7 @@ fn permutations(v: &[String]) -> Vec<Vec<String>> {
 fn count(items: &[Item]) -> (usize, usize, Vec<usize>) {
     // (scopes created, boundaries, awaits per task) in creation order
     fn go(items: &[Item], s: &mut usize, b: &mut usize, t: &mut Vec<usize>) {
-        for i in items { match i { Item::S(c) => { *s += 1; go(c, s, b, t) } Item::B(c) => { *s += 1; *b += 1; go(c, s, b, t) } Item::T(n) => t.push(*n), Item::U(_) | Item::R(_) => t.push(1) } }
+        for i in items { match i { Item::S(c) => { *s += 1; go(c, s, b, t) } Item::B(c) => { *s += 1; *b += 1; go(c, s, b, t) } Item::T(n) => t.push(*n), Item::U(_) | Item::R(_) => t.push(1), Item::G | Item::W => {} } }
     }
     let (mut s, mut b, mut t) = (0, 0, vec![]);
     go(items, &mut s, &mut b, &mut t);
@@ -589,7 +608,7 @@ fn count(items: &[Item]) -> (usize, usize, Vec<usize>) {
 
 /// is the t-th task-like item (creation order) a real task (not a resource read)?
 fn items_task_is_real(items: &[Item], t: usize) -> bool {
-    fn go(items: &[Item], v: &mut Vec<bool>) { for i in items { match i { Item::S(c) | Item::B(c) => go(c, v), Item::T(_) => v.push(true), Item::U(_) | Item::R(_) => v.push(false) } } }
+    fn go(items: &[Item], v: &mut Vec<bool>) { for i in items { match i { Item::S(c) | Item::B(c) => go(c, v), Item::T(_) => v.push(true), Item::U(_) | Item::R(_) => v.push(false), Item::G | Item::W => {} } } }
     let mut v = vec![];
     go(items, &mut v);
     v.get(t).copied().unwrap_or(false)
@@ -729,9 +748,39 @@ pub fn generate(args: &Args) -> Vec<String> {
             }
         }
     }
+    // a subscriber of the surviving boundary's loading state INSIDE the scope that is disposed, created after the pending
+    // task, that reads state of an earlier sibling once the boundary stops loading: the guard of a cancelled task is
+    // released by the executor after the scope is gone, not in the middle of its disposal
+    for f in ["(L (b (s (G) (s (t 1)) (W))))", "(L (b (t 1) (s (G) (s (t 2)) (s (t 1)) (W))))", "(L (b (s (s (G) (s (t 1)) (W)) (t 1))))", "(L (b (b (s (G) (s (t 1)) (W)))))", "(L (b (s (G) (s (R 0)) (W)) (s (u 0))))"] {
+        let items = parse_items(f).unwrap();
+        let (scopes, _, tasks) = count(&items);
+        let mut evs: Vec<String> = vec![];
+        for (t, n) in tasks.iter().enumerate() { if items_task_is_real(&items, t) { for _ in 0..*n { evs.push(format!("c{t}")); } } }
+        if f.contains("(R 0)") { evs.push("r0".into()); }
+        for d in 1..=scopes {
+            l.push(format!("async suspense {f} d{d}"));
+            let mut a = vec![format!("d{d}")]; a.extend(evs.iter().cloned());
+            l.push(format!("async suspense {f} {}", a.join(",")));
+            if !evs.is_empty() {
+                let mut b = vec![evs[0].clone(), format!("d{d}")]; b.extend(evs[1..].iter().cloned());
+                l.push(format!("async suspense {f} {}", b.join(",")));
+            }
+        }
+    }
     for _ in 0..(if thorough { 20_000 } else { 800 }) {
         let mut budget = 7;
         let mut items = gen_items(&mut rng, 3, &mut budget);
+        // now and then: state at the front of a container and a watcher at its end
+        if rng.chance(1, 4) {
+            fn wrap(items: &mut Vec<Item>, rng: &mut Rng) {
+                let conts: Vec<usize> = items.iter().enumerate().filter(|(_, i)| matches!(i, Item::S(_) | Item::B(_))).map(|(k, _)| k).collect();
+                if !conts.is_empty() && rng.chance(1, 2) {
+                    let k = *rng.pick(&conts);
+                    if let Item::S(c) | Item::B(c) = &mut items[k] { wrap(c, rng); }
+                } else { items.insert(0, Item::G); items.push(Item::W); }
+            }
+            wrap(&mut items, &mut rng);
+        }
         // put the resource at the front of a random container (or of the top level); reads come after it
         fn containers(items: &Vec<Item>) -> usize { 1 + items.iter().map(|i| match i { Item::S(c) | Item::B(c) => containers(c), _ => 0 }).sum::<usize>() }
         fn place(items: &mut Vec<Item>, k: &mut usize, seen: &mut bool, rng: &mut Rng) {
